@@ -128,6 +128,7 @@ pub fn run(tier: Tier, seed: u64) -> i32 {
                 Err(Fail::Panic(p)) => ev.violation(&format!("C14:component_mul_generator:panic:{}", panic_site(&p)), json!({"s": hx(&s), "panic": p})),
                 Ok(_) if !canonical => ev.violation("C14:component_mul_generator:accepts-non-canonical-scalar-on-host", json!({"s": hx(&s), "class": sname})),
                 Ok(_) => {
+                    let c = if ci % 2 == 1 { super::gadget::in_context(c, &mut rng, false, &ev) } else { c };
                     if let Some(h) = lab.honest(&c) {
                         for (name, forge) in substitutions(&h, &mut rng, 2, tier.pick(14, 40)) {
                             lab.adversary(&c, &h, &name, &forge);
@@ -197,7 +198,31 @@ pub fn run(tier: Tier, seed: u64) -> i32 {
         d[255 - (rng.next_u32() as usize % 3)] = 1;
         vectors.push(("leading-digit-set".into(), d));
 
-        let prog = Arc::new(Program { ops: vec![Op::Witness(0), Op::SeamFixedBase(2, g, 0), Op::PointCoords(1)], n_scalar_inputs: 1, n_point_inputs: 0, n_digit_inputs: 1 });
+        // half of the widget cases run after an earlier call on the scalar
+        // witness that the scalar passes (a range check or a decomposition of
+        // a width it fits): the widget must be exactly as strict as alone
+        let mut ops = vec![Op::Witness(0)];
+        if ci % 2 == 1 {
+            let bl = us.bits();
+            let mut pre: Vec<(&str, Op)> = Vec::new();
+            for w in [251usize, 252, 253, 254] {
+                if bl <= w {
+                    pre.push(("range_bits", Op::RangeBits(w, 2)));
+                    pre.push(("range_seam", Op::RangeSeam(w, 2)));
+                }
+            }
+            if bl <= 252 {
+                pre.push(("truncate", Op::Truncate(252, 2)));
+            }
+            pre.push(("range_bits_255", Op::RangeBits(255, 2)));
+            let (pn, po) = pre[(ci as usize / 2) % pre.len()].clone();
+            ev.bucket("widget.in_context");
+            ev.set_insert("widget_context_preludes", format!("{pn}:{}", po.tag().split('(').next().unwrap_or("")));
+            ops.push(po);
+        }
+        ops.push(Op::SeamFixedBase(2, g, 0));
+        ops.push(Op::PointCoords(1));
+        let prog = Arc::new(Program { ops, n_scalar_inputs: 1, n_point_inputs: 0, n_digit_inputs: 1 });
         let layout = match common::build_instance(&prog, &Inputs::default_for(&prog), &[]) {
             Ok((l, _)) => l,
             Err(f) => {
@@ -228,7 +253,8 @@ pub fn run(tier: Tier, seed: u64) -> i32 {
                 Ok((snap, regs)) => {
                     let rep = sat::check(&layout, &snap);
                     ev.bucket(if rep.satisfied() { "widget.satisfied" } else { "widget.unsatisfied" });
-                    let got = (snap.witnesses[regs.s[3].index()], snap.witnesses[regs.s[4].index()]);
+                    let nr = regs.s.len();
+                    let got = (snap.witnesses[regs.s[nr - 2].index()], snap.witnesses[regs.s[nr - 1].index()]);
                     if rep.satisfied() {
                         let mut why = Vec::new();
                         if !canonical {
@@ -264,7 +290,9 @@ pub fn run(tier: Tier, seed: u64) -> i32 {
     ev.floor("entry point refusals for non-canonical scalars", ev.bucket_get("entry.err-for-non-canonical"), 50);
     ev.floor("adversarial accumulator substitutions", ev.bucket_get("adversarial"), tier.pick(1500, 15000));
     ev.floor("end to end", ev.bucket_get("end_to_end"), 5);
+    ev.floor("widget cases run after an earlier call on the scalar", ev.bucket_get("widget.in_context"), tier.pick(30, 300));
     ev.floor("near-miss assignments (one sub-identity on one row) refused by the real prover", ev.bucket_get("near_miss.end_to_end"), 20);
     ev.floor("sub-identities covered by near misses", ev.set_len("near_miss_identities") as u64, 5);
+    ev.floor("cases run in a context of earlier calls on the operands", ev.bucket_get("context.cases"), 10);
     ev.finish()
 }
